@@ -1,0 +1,56 @@
+//go:build verif
+
+// Contracts for package didweb, checked by /verif/govc (comment-only; not part of any normal build).
+
+package didweb
+
+//@ func (core.HTTPRequestDoer).Do
+//@   trusted
+//@   benign
+//@   ensures isNilIface(result.1) ==> result.0 != nil
+//@ func net.ParseIP
+//@   trusted
+//@   pure
+//@ func mime.ParseMediaType
+//@   trusted
+//@   benign
+//@ func io.ReadAll
+//@   trusted
+//@   benign
+//@ func (*did.Document).UnmarshalJSON
+//@   trusted
+//@   modifies *d
+//@ func percentDecodeString
+//@   prop C18
+//@   assume-benign
+
+// ---- C18: a did:web identifier determines the URL; the URL's host is the identifier's host, never an IP ----
+
+//@ func DIDToURL
+//@   prop C18 C19
+//@   safety
+//@   ensures [only-did-web] isNilIface(result.1) ==> id.Method == "web"
+//@   ensures [url-iff-ok] isNilIface(result.1) ==> result.0 != nil
+//@   ensures [url-is-https-host-path-of-the-identifier] isNilIface(result.1) ==> result.0 != nil && result.0 == ret(call url.Parse #1).0 && isNilIface(ret(call url.Parse #1).1)
+//@        && arg(call url.Parse #1, 0) == "https://" + ret(call url.PathUnescape #1).0 + ret(call percentDecodeString #1)
+//@        && isNilIface(ret(call url.PathUnescape #1).1)
+//@   ensures [host-is-exactly-the-identifiers-host] isNilIface(result.1) ==> result.0.Host == ret(call url.PathUnescape #1).0
+//@   ensures [host-is-not-an-ip-address] isNilIface(result.1) ==> len(ret(call net.ParseIP #1)) == 0 && arg(call net.ParseIP #1, 0) == ret(call (*url.URL).Hostname #1)
+//@        && arg(call (*url.URL).Hostname #1, 0) == result.0
+//@   ensures [no-empty-path-segments] isNilIface(result.1) && did(call strings.HasSuffix #1) ==> ret(call strings.HasSuffix #1) == false && ret(call strings.Contains #1) == false
+
+// The document is requested with GET from <DIDToURL(id)>[/.well-known]/did.json only, accepted only
+// with a 2xx status and an allowed content type, and returned only if its id equals the DID asked for.
+//@ func (Resolver).Resolve
+//@   prop C18 C19
+//@   safety
+//@   call (core.HTTPRequestDoer).Do #1 requires [request-goes-to-the-url-the-identifier-encodes] id.Method == "web"
+//@        && isNilIface(ret(call DIDToURL #1).1) && same(arg(call DIDToURL #1, 0), id)
+//@        && isNilIface(ret(call http.NewRequest #1).1) && arg(1) == ret(call http.NewRequest #1).0
+//@        && arg(call http.NewRequest #1, 0) == "GET" && arg(call http.NewRequest #1, 1) == ret(call (*url.URL).String #1)
+//@        && arg(call (*url.URL).String #1, 0) == ret(call DIDToURL #1).0 && isNilIface(arg(call http.NewRequest #1, 2))
+//@   ensures [document-id-is-the-did-asked-for] isNilIface(result.2) ==> result.0 != nil && ret(call (did.DID).Equals #1) == true
+//@        && same(arg(call (did.DID).Equals #1, 1), id) && same(arg(call (did.DID).Equals #1, 0), result.0.ID)
+//@   ensures [only-2xx-and-allowed-content-types] isNilIface(result.2) ==> isNilIface(ret(call (core.HTTPRequestDoer).Do #1).1)
+//@        && ret(call (core.HTTPRequestDoer).Do #1).0.StatusCode >= 200 && ret(call (core.HTTPRequestDoer).Do #1).0.StatusCode < 300
+//@        && (ret(call mime.ParseMediaType #1).0 == "application/did+ld+json" || ret(call mime.ParseMediaType #1).0 == "application/did+json" || ret(call mime.ParseMediaType #1).0 == "application/json")
